@@ -283,7 +283,47 @@ def c02_part(ctx, vh, model, report, extra):
                 report(bad, replay)
             elif L.canon(i, "real") != L.canon(m, "real"):
                 report("PAR1 (real directory) differs from the model: impl=%s model=%s" % (i[:90], m[:90]), replay, True)
+    # a Repair that fails part-way (the second or a later write fails): what was rewritten before must be listed and exact
+    s = small_created(ctx, vh, model, report, rng, nf=3, nv=3)
+    pn = 0
+    if s.created is not None:
+        names = [x for x, _ in s.files]
+        for lost in ([names[0], names[1]], names[:3]):
+            fs = dict(s.created)
+            for nm in lost:
+                fs.pop(s.paths[nm], None)
+            base = P1.line_repair("mem", s.index, False, fs)
+            bi = L.parse_result(ctx.run_lines(vh, [base], shards=1)[0])
+            widx = [k for k, ev in enumerate(bi["trace"]) if ev.startswith("W:")]
+            flines = []
+            for j in range(1, len(widx)):
+                for kind in ("n", "t1"):
+                    assert base.endswith(" 0")
+                    flines.append((base.rsplit(" ", 1)[0] + " 1 %d:%s" % (widx[j], kind), j, kind, widx[j]))
+            fi, fm = run_both(ctx, vh, model, [f[0] for f in flines])
+            protected = {s.paths[x]: d for x, d in s.files}
+            for (fl, j, kind, wi), x, y in zip(flines, fi, fm):
+                pn += 1
+                px = L.parse_result(x)
+                ctx.count("p1c02-partial|" + L.hx(L.md5(fl.encode())), True)
+                torn = L.unhx(px["trace"][wi].split(":")[1]).decode("latin-1") if kind.startswith("t") and wi < len(px["trace"]) else None
+                bad = None
+                for p, d in px["changed"].items():
+                    if p == torn:
+                        continue
+                    if p not in protected or d != protected[p]:
+                        bad = "PAR1 Repair changed %s to something that is not a protected original" % p
+                    elif p not in px["repaired"]:
+                        bad = "a file rewritten before the failure is not listed in the result: %s" % p
+                if px["res"] == "ok":
+                    bad = "PAR1 Repair returned success although a write failed"
+                replay = {"lines": [fl], "mode": "mem", "impl": x[:1200], "model": y[:1200], "class": {"par1": "c02-partial"}}
+                if bad:
+                    report("%s (write %d fails with %s, result %s)" % (bad, j, kind, px["res"]), replay)
+                elif L.canon(x, "mem") != L.canon(y, "mem"):
+                    report("PAR1 Repair with a failing write differs from the model: impl=%s model=%s" % (x[:90], y[:90]), replay, True)
     extra["par1_cases"] = n
+    extra["par1_partial_failure_cases"] = pn
 
 
 def c13_part(ctx, vh, model, report, extra):
